@@ -464,16 +464,24 @@ def check_svf(c):
             return ("C07:inverse:link=True:params=Parameter:TypeError", f"{type(t).__name__}: TypeError: {str(e)[:100]}")
         raise
     with torch.no_grad():
-        if c["when"] == "after":
-            t.params.mul_(0.8)
-        t.update()
         m = max(3, nmin // 5)
         sl = (slice(None),) + (slice(m, -m),) * d
         x = g.coords().unsqueeze(0)[sl].reshape(1, -1, d)
-        y = t(x)
         scale = torch.tensor([n / 2 for n in c["size"]])
+        e_direct = 0.0
+        if c["ub"] and c["when"] == "before":
+            # update_buffers=True: the inverse is usable straight away through forward()/disp()/points(), i.e. without
+            # the pre-forward hook of __call__ having refreshed its buffers
+            yd = t.forward(x)
+            e_direct = float(((inv.forward(yd) - x) * scale).abs().max())
+            xc = g.coords().unsqueeze(0)
+            e_direct = max(e_direct, float((((xc + inv.disp().movedim(1, -1))[sl].reshape(1, -1, d) - inv.forward(x)) * scale).abs().max()))
+        if c["when"] == "after":
+            t.params.mul_(0.8)
+        t.update()
+        y = t(x)
         a = float(((y - x) * scale).abs().max())
-        e = max(float(((inv(y) - x) * scale).abs().max()), float(((t(inv(x)) - x) * scale).abs().max()))
+        e = max(float(((inv(y) - x) * scale).abs().max()), float(((t(inv(x)) - x) * scale).abs().max()), e_direct)
     MEASURED["cases"] += 1
     if a > 0.05:
         MEASURED["max_ratio"] = max(MEASURED["max_ratio"], e / (a * a))
